@@ -213,5 +213,9 @@ def run(chk: Check) -> None:
              "(clauses C13.R2-R4)", minimum=100)
     clone_clause(_NoRuleDecl(proxy), prog, S_)
     clone_from_root_clause(_NoRuleDecl(proxy), prog, S_)
+    # contracts of other parts of the library this check takes for granted (summaries, token model, reference grammar):
+    # the clauses that check the source against them, replayed under this property (props/contracts.py)
+    from .contracts import run_contracts
+    run_contracts(chk, prog, ['evaluate', 'traversal'])
     chk.exhaustive = True
     chk.max_undecided = 0
